@@ -10,7 +10,7 @@ static std::string obs(const std::string& text, bool strict) {
   return j.serialize(JSON::SerializeOption::SORT_DICT_KEYS);
 }
 
-VF_SECTION(concurrent_pairs, 16, 16, 300) {
+static std::vector<pp::Call> make_calls() {
   std::vector<pp::Call> calls;
   auto add = [&](const std::string& text, bool strict) {
     calls.push_back({"JSON::parse(" + vf::show(text) + (strict ? ", strict)" : ")"), strict ? "JSON::parse(strict)" : "JSON::parse", pp::guarded([text, strict] { return obs(text, strict); })});
@@ -25,7 +25,19 @@ VF_SECTION(concurrent_pairs, 16, 16, 300) {
   }
   add("[0x1F, // c\n 2]", false);  // extensions (default mode only)
   add("[0x1F]", true);             // rejected in strict mode
+  return calls;
+}
+
+VF_SECTION(concurrent_pairs, 16, 16, 300) {
+  std::vector<pp::Call> calls = make_calls();
   pp::run_pairs(r, calls, r.thorough() ? 500 : 200, r.thorough() ? 200 : 0);
   r.bound = "every unordered pair (and every call with itself) of 14 JSON::parse calls (default and strict mode; accepted, rejected, extension syntax) run concurrently, each followed by serialize(SORT_DICT_KEYS) as the observation: every schedule with <= 2 preemptions for same-mode pairs with <= 200 (thorough 500) scheduling points per call (thorough: cross pairs <= 200 too), <= 1 preemption otherwise; basic-block granularity of JSON.cc";
+}
+
+// First calls: every same-function pair (thorough: every pair) with each schedule in a freshly forked process.
+VF_SECTION(concurrent_cold, 16, 16, 600) {
+  std::vector<pp::Call> calls = make_calls();
+  pp::run_pairs_cold(r, calls, r.thorough());
+  r.bound = "first calls: every same-function pair of the calls above and every call with itself (thorough: every pair), each schedule in a freshly forked process that has never called the library: every schedule with <= 1 preemption at basic-block granularity";
 }
 VF_MAIN()
